@@ -60,7 +60,8 @@ def run(ctx):
                 continue
             seen_b.add(b.name)
             ctx.functions_analysed.add(b.name)
-            ins = [c for c in b.calls if re.search(r'(Hash|BTree)Set::<.*>::insert$', c.name or '')]
+            ins = [c for c in b.calls if re.search(r'(Hash|BTree)Set::<.*>::insert$', c.name or '')
+                   or ((c.fn or '').endswith('iter::Extend::extend') and re.search(r'(Hash|BTree)Set', (c.res or '') + ' '.join(c.t.get('gargs', []))))]
             for c in ins:
                 n += 1
                 tests = [x.bb for x in b.calls if (x.fn or '').endswith('DataValue::is_null')]
